@@ -104,6 +104,13 @@ Theorem C12_contains : forall l r,
 Proof. exact contains_spec. Qed.
 Print Assumptions C12_contains.
 
+(* a hash never contains an array or a hash (they cannot be keys); before the C02 repair a bare TypeError escaped here *)
+Theorem C12_contains_hash_nonkey : forall d r,
+  match r with VList _ | VDict _ => liq_contains (VDict d) r = Ok false | _ => True end.
+Proof. exact contains_hash_nonkey. Qed.
+Print Assumptions C12_contains_hash_nonkey.
+
+
 (* membership uses Python's ==, not Liquid's: the recorded known finding, as a witness in the model *)
 Theorem C12_contains_bool_int_refuted :
   exists xs r, liq_contains (VList xs) r = Ok true /\ Forall (fun x => liq_eq x r = false) xs.
